@@ -16,8 +16,13 @@ CFG = {
                          "(NewAddress, NewChangeAddress, CurrentAddress, CreateSimpleTx dry/real/failing, FundPsbt, ImportAccountDryRun ok/failing, ImportAccount, "
                          "RenameAccount, NextAccount, Lock/Unlock): dry runs and failed requests never change the database image; the account cache stays coherent; "
                          "AccountProperties / AccountNumber / AccountName / next address of every branch agree with a restarted wallet; NewAddress / NewChangeAddress "
-                         "return what a restarted wallet returns. PARTIAL: AddressInfo/HaveAddress (false for addresses of rolled-back transactions, F9) and "
-                         "Unlock after ImportAccountDryRun (new finding) - counter-example theorems + oracle keys.",
+                         "return what a restarted wallet returns. PARTIAL: AddressInfo/HaveAddress (false for addresses of rolled-back transactions, F9: open finding "
+                         "C08 key=CreateSimpleTxDryRun.address-cache-not-reverted, theorem C08_wallet_counterexample_dryrun_address_cache; hence the suffix of "
+                         "C08_wallet_committed_eq_reopen_partial). No longer partial: Unlock after ImportAccountDryRun failed with ErrAccountNotFound until restart "
+                         "and the dry-run account's preview addresses stayed cached - fixed in /repo 4e25286 (InvalidateAccountCache also drops the account's cached "
+                         "addresses and derive-on-unlock entries); the model follows the fixed code, C08_wallet_counterexample_unfixed_dryrun_unlock / "
+                         "_unfixed_importdry_address_cache state the defect for a tree before that commit, and reverting it yields the oracle keys "
+                         "ImportAccountDryRun.unlock-fails-unlike-restart / ImportAccountDryRun.address-cache-not-reverted.",
     "lean_props": ["BtcwVerif.Props.C08", "BtcwVerif.Props.C08w"],
     "engines": ["addrmgr-lock", "wallet-restart"],
     "trusted_base": COMMON_TB + [
